@@ -223,6 +223,10 @@ def attr(o, name):
     return getattr(o, name, UNDEF)
 
 
+def attr_named(o, name):
+    return getattr(o, name, UNDEF)
+
+
 def dynattr(o, name):
     return getattr(o, name, UNDEF) if isinstance(name, str) else UNDEF
 
